@@ -243,6 +243,8 @@ class Gen:
         if r.random() < 0.2:
             d["docs"] = r.choice(DOCS)
         d["export_to"] = r.choice(EXPORT_TO)
+        if r.random() < 0.15:
+            d["spelling"] = "serde_split"     # each container attribute in a #[serde(..)] of its own, in reverse order
         self.finish(d)
         return self.add(d)
 
@@ -356,6 +358,8 @@ class Gen:
         if r.random() < 0.2:
             d["docs"] = r.choice(DOCS)
         d["export_to"] = r.choice(EXPORT_TO)
+        if r.random() < 0.2:
+            d["spelling"] = "serde_split"
         self.finish(d)
         return self.add(d)
 
@@ -391,6 +395,36 @@ class Gen:
         self.add(mk_struct("TagHost0", "named", [mk_field("t", ("named", "TagSt0", []), flatten=True)], flatten_ok=False, no_ref=True))
         self.add(mk_struct("TagHost2", "named", [mk_field("t", ("named", "TagSt", []), flatten=True), mk_field("u", ("named", "TagSt", []), inline=True),
                                                  mk_field("v", ("vec", ("named", "TagSt0", [])))], flatten_ok=False, no_ref=True))
+        # #[ts(concrete(..))]: the first, the last, the middle, every parameter; a default next to it; used by reference and inlined
+        self.add(mk_struct("HeadFixed", "named", [mk_field("a", ("param", 0)), mk_field("b", ("vec", ("param", 1)))],
+                           params=[("A", None), ("B", None)], concrete=[(0, ("leaf", "i32"))], flatten_ok=False, no_ref=True))
+        self.add(mk_struct("TailFixed", "named", [mk_field("a", ("option", ("param", 0))), mk_field("b", ("param", 1))],
+                           params=[("A", None), ("B", None)], concrete=[(1, ("named", "Foo", []))], flatten_ok=False, no_ref=True))
+        self.add(mk_enum("MidFixed", [mk_variant("X", "tuple", [mk_field("_0", ("param", 0))]), mk_variant("Y", "named", [mk_field("m", ("param", 1)), mk_field("c", ("param", 2))])],
+                         params=[("A", None), ("B", None), ("C", ("leaf", "bool"))], concrete=[(1, ("leaf", "String"))], tagging=("adjacent", "t", "c"),
+                         flatten_ok=False, no_ref=True))
+        self.add(mk_struct("AllFixed", "tuple", [mk_field("_0", ("param", 0)), mk_field("_1", ("param", 1))],
+                           params=[("A", None), ("B", None)], concrete=[(0, ("leaf", "u8")), (1, ("leaf", "bool"))], flatten_ok=False, no_ref=True))
+        self.add(mk_struct("FixedHost", "named", [mk_field("h", ("named", "HeadFixed", [("leaf", "i32"), ("leaf", "String")])),
+                                                  mk_field("t", ("named", "TailFixed", [("leaf", "u8"), ("named", "Foo", [])]), inline=True),
+                                                  mk_field("m", ("vec", ("named", "MidFixed", [("leaf", "u8"), ("leaf", "String"), ("leaf", "bool")]))),
+                                                  mk_field("z", ("named", "AllFixed", [("leaf", "u8"), ("leaf", "bool")]))], flatten_ok=False, no_ref=True))
+        # containers named by raw identifiers (the TypeScript name is the identifier without `r#`)
+        self.add(mk_enum("r#match", [mk_variant("Alpha", "unit"), mk_variant("Beta", "named", [mk_field("x", ("leaf", "u8"))])], flatten_ok=False, no_ref=True))
+        self.add(mk_struct("r#struct", "named", [mk_field("x", ("leaf", "u8"))], flatten_ok=False, no_ref=True))
+        self.add(mk_struct("RawHost", "named", [mk_field("m", ("named", "r#match", [])), mk_field("t", ("vec", ("named", "r#struct", [])))],
+                           flatten_ok=False, no_ref=True))
+        # internally tagged enum / tagged struct whose only field is a flattened one
+        self.add(mk_enum("TagOnlyFlat", [mk_variant("Move", "named", [mk_field("to", ("named", "Foo", []), flatten=True)]),
+                                         mk_variant("Say", "named", [mk_field("text", ("leaf", "String"))]), mk_variant("Stop", "unit")],
+                         tagging=("internal", "kind"), flatten_ok=False, no_ref=True))
+        self.add(mk_struct("TagStFlat", "named", [mk_field("f", ("named", "Foo", []), flatten=True)], tag="kind", flatten_ok=True, no_ref=True))
+        self.add(mk_struct("TagStFlatHost", "named", [mk_field("a", ("named", "TagStFlat", [])), mk_field("b", ("named", "TagStFlat", []), inline=True),
+                                                     mk_field("c", ("named", "TagOnlyFlat", []), inline=True)], flatten_ok=False, no_ref=True))
+        # tag and content of an adjacently tagged enum in two #[serde(..)] attributes
+        self.add(mk_enum("SplitAdj", [mk_variant("New", "tuple", [mk_field("_0", ("named", "Foo", []))]), mk_variant("Unit", "unit"),
+                                      mk_variant("St", "named", [mk_field("a", ("leaf", "u8"))])],
+                         tagging=("adjacent", "t", "c"), rename_all="snake_case", spelling="serde_split", flatten_ok=False, no_ref=True))
         # object literals that meet INSIDE a field type (an internally tagged newtype variant whose payload is inlined):
         # the host's merge of its own operands must leave them alone
         self.add(mk_enum("TagNew", [mk_variant("A", "tuple", [mk_field("_0", ("named", "Foo", []), inline=True)]), mk_variant("B", "unit")],
@@ -550,7 +584,11 @@ class Gen:
             insts = []
             for k in range(3):
                 args = []
-                for (pn, dflt) in d["params"]:
+                conc = {int(i): t for i, t in (d.get("concrete") or [])}
+                for pi, (pn, dflt) in enumerate(d["params"]):
+                    if pi in conc:
+                        args.append(conc[pi])
+                        continue
                     needs_obj = any(f["flatten"] and f["ty"] == ("param", i) for i, (q, _) in enumerate(d["params"]) if q == pn
                                     for f in (d["fields"] if d["kind"] == "struct" else [f for v in d["variants"] for f in v["fields"]]))
                     if needs_obj:
@@ -729,6 +767,12 @@ fn v<T: Serialize>(ix: usize, k: usize, x: T) {
 fn x<T: TS + 'static + ?Sized>(ix: usize, dir: &str) {
     let r = catch_unwind(AssertUnwindSafe(|| T::export_all_to(format!("{dir}/{ix}"))));
     println!("X\u{2}{}\u{2}{}", ix, match r { Ok(Ok(())) => "OK".to_owned(), Ok(Err(e)) => format!("ERR {e:?}").replace('\n', " "), Err(_) => "PANIC".to_owned() });
+}
+fn xo<T: TS + 'static + ?Sized>() -> String {
+    match catch_unwind(AssertUnwindSafe(|| T::export())) { Ok(Ok(())) => "OK".to_owned(), Ok(Err(e)) => format!("ERR {e:?}").replace('\n', " "), Err(_) => "PANIC".to_owned() }
+}
+fn xd<T: TS + 'static + ?Sized>() -> String {
+    match catch_unwind(AssertUnwindSafe(|| T::export_all())) { Ok(Ok(())) => "OK".to_owned(), Ok(Err(e)) => format!("ERR {e:?}").replace('\n', " "), Err(_) => "PANIC".to_owned() }
 }
 fn xa<T: TS + 'static + ?Sized>(dir: &str) -> String {
     match catch_unwind(AssertUnwindSafe(|| T::export_all_to(dir))) { Ok(Ok(())) => "OK".to_owned(), Ok(Err(e)) => format!("ERR {e:?}").replace('\n', " "), Err(_) => "PANIC".to_owned() }
